@@ -7,7 +7,7 @@
    (set_masks tests `cluster < end`), only the global range reaches a glyph with that cluster value. *)
 From Coq Require Import List NArith Bool.
 From RB Require Import Gen.FeatureConsts Model.Feature Proofs.FeatureP.
-From RB Require Base.Result Model.Buffer Proofs.BufferMaskP.
+From RB Require Base.Result Model.Buffer Proofs.BufferMaskP Proofs.BufferFlagFrameP.
 Import ListNotations.
 Local Open Scope N_scope.
 
@@ -203,8 +203,8 @@ Proof. vm_compute. repeat split; reflexivity. Qed.
    that the operation-sequence correspondence runs against hb_buffer_t (Model/Buffer.v): the bits of a mask outside the
    three glyph-flag bits - where set_masks stores user-feature values - survive set_cluster, merge_clusters and
    delete_glyph, glyph by glyph.  The backward-merging branch of delete_glyph is the one that hands another glyph's mask
-   to set_cluster (only its FLAG bits may arrive).  Partial: delete_glyph in output mode (where GSUB deletes) at levels
-   0 and 1; at level 2 merge_clusters turns into a flag call. *)
+   to set_cluster (only its FLAG bits may arrive).  delete_glyph: in output mode (where GSUB deletes), at every cluster
+   level (at level 2 the forward merge turns into a flag call, which writes flag bits only). *)
 Theorem C14_set_cluster_keeps_feature_bits : forall i c m, BufferMaskP.fbits (Buffer.set_cluster i c m) = BufferMaskP.fbits i.
 Proof. exact BufferMaskP.fbits_set_cluster. Qed.
 Print Assumptions C14_set_cluster_keeps_feature_bits.
@@ -215,10 +215,10 @@ Theorem C14_merge_clusters_keeps_feature_bits : forall b s e b', Buffer.merge_cl
 Proof. exact BufferMaskP.merge_clusters_fbits. Qed.
 Print Assumptions C14_merge_clusters_keeps_feature_bits.
 
-Theorem C14_delete_glyph_keeps_feature_bits_partial : forall b b', Buffer.out_mode b = true -> Buffer.level b <> 2%N -> Buffer.delete_glyph b = Result.Ok b' ->
+Theorem C14_delete_glyph_keeps_feature_bits : forall b b', Buffer.out_mode b = true -> Buffer.delete_glyph b = Result.Ok b' ->
   exists x t, Buffer.rest b = x :: t /\ map BufferMaskP.fbits (Buffer.pre b') = map BufferMaskP.fbits (Buffer.pre b) /\ map BufferMaskP.fbits (Buffer.rest b') = map BufferMaskP.fbits t.
-Proof. exact BufferMaskP.delete_glyph_fbits. Qed.
-Print Assumptions C14_delete_glyph_keeps_feature_bits_partial.
+Proof. exact BufferFlagFrameP.delete_glyph_fbits_all_levels. Qed.
+Print Assumptions C14_delete_glyph_keeps_feature_bits.
 
 (* the backward-merging branch on a concrete buffer: the survivor takes cluster 0 and the deleted glyph's flag bits (3)
    and keeps its own feature bits (0x100), not the deleted glyph's (0x200) *)
